@@ -2277,6 +2277,141 @@ Section SigConv.
       destruct (tsig (bt child)); [reflexivity|discriminate].
   Qed.
 
+  (* ---------- import.rs ---------- *)
+  Section Import.
+    Variable kids : list bundle.
+    Hypothesis Hgood : Forall sgood kids.
+    Hypothesis Hscope : Forall (fun b => sc (bt b) = true) kids.
+
+    Lemma import_split_map :
+      import_split kind_of children (map bt kids) =
+      (map bt (fst (import_split bk bkids kids)), map bt (snd (import_split bk bkids kids))).
+    Proof.
+      unfold import_split. cbn [fst snd]. rewrite map_length.
+      assert (P : forall l i,
+                (fix pos (l : list tree) (i : nat) := match l with [] => None | x :: r =>
+                   if (match kind_of x with KLeftParen | KImportItems => true | _ => false end) then Some i else pos r (S i) end) (map bt l) i =
+                (fix pos (l : list bundle) (i : nat) := match l with [] => None | x :: r =>
+                   if (match bk x with KLeftParen | KImportItems => true | _ => false end) then Some i else pos r (S i) end) l i).
+      { induction l as [|x r IH]; intros i; cbn; [reflexivity|]. rewrite IH. reflexivity. }
+      rewrite P. set (dv := match _ with Some i => i | None => length kids end). f_equal.
+      - destruct dv as [|d']; [reflexivity|]. rewrite nth_error_map. destruct (nth_error kids d') as [b|]; cbn [option_map].
+        + unfold bk. destruct (kind_eqb _ _); rewrite firstn_map; reflexivity.
+        + rewrite firstn_map. reflexivity.
+      - rewrite skipn_map.
+        assert (Hs : Forall sgood (skipn dv kids)) by (apply Forall_skipn; exact Hgood).
+        induction Hs as [|x l Hx Hl IHl]; cbn [map flat_map]; [reflexivity|]. rewrite map_app, IHl. f_equal.
+        unfold bk. destruct (kind_eqb _ _); [symmetry; apply (good_shape _ _ Hx)|reflexivity].
+    Qed.
+
+    Lemma import_split_eq :
+      let divider := match position (fun b => kin (bk b) [KLeftParen; KImportItems]) kids 0 with Some i => i | None => length kids end in
+      (match divider with
+       | S d' => match nth_error kids d' with
+                 | Some b => if kind_eqb (bk b) KSpace then firstn d' kids else firstn divider kids
+                 | None => firstn divider kids
+                 end
+       | O => []
+       end,
+       flat_map (fun b => if kind_eqb (bk b) KImportItems then bkids b else [b]) (skipn divider kids)) = import_split bk bkids kids.
+    Proof.
+      intros divider. unfold import_split, divider.
+      assert (P : forall l i, position (fun b => kin (bk b) [KLeftParen; KImportItems]) l i =
+                (fix pos (l : list bundle) (i : nat) := match l with [] => None | x :: r =>
+                   if (match bk x with KLeftParen | KImportItems => true | _ => false end) then Some i else pos r (S i) end) l i).
+      { induction l as [|x r IH]; intros i; cbn [position]; [reflexivity|]. rewrite IH. destruct (bk x); reflexivity. }
+      rewrite P. reflexivity.
+    Qed.
+
+    Lemma Forall_split (P : bundle -> Prop) :
+      Forall P kids -> (forall b, In b kids -> kind_eqb (bk b) KImportItems = true -> Forall P (bkids b)) ->
+      Forall P (fst (import_split bk bkids kids)) /\ Forall P (snd (import_split bk bkids kids)).
+    Proof.
+      intros H Hsub. unfold import_split. cbn [fst snd]. set (dv := match _ with Some i => i | None => length kids end). split.
+      - destruct dv as [|d']; [constructor|]. destruct (nth_error kids d'); [destruct (kind_eqb _ _)|]; apply Forall_firstn; exact H.
+      - assert (Hs : Forall P (skipn dv kids)) by (apply Forall_skipn; exact H).
+        assert (Hin : forall b, In b (skipn dv kids) -> In b kids).
+        { intros b Hb. rewrite <- (firstn_skipn dv kids). apply in_or_app. right. exact Hb. }
+        induction (skipn dv kids) as [|x l IHl]; cbn [flat_map]; [constructor|]. inversion Hs; subst.
+        apply Forall_app. split; [|apply IHl; [assumption|intros; apply Hin; right; assumption]].
+        destruct (kind_eqb (bk x) KImportItems) eqn:E; [apply Hsub; [apply Hin; left; reflexivity|exact E]|constructor; [assumption|constructor]].
+    Qed.
+
+    Lemma cons_convert_import c :
+      (let '(p, n) := import_split kind_of children (map bt kids) in
+       str_eqb (tsigl (map bt kids)) (tsigl p ++ tsigl n) &&
+       all_kept (fun c => match kind_of c with KColon | KStar | KIdent => true | _ => is_expr c end) p &&
+       lwalkb (fun c => match kind_of c with KRenamedImportItem | KImportItemPath => true | _ => false end) n false) = true ->
+      post (convert_import swidth cfg kids c) (good_doc (tsigs kids)).
+    Proof.
+      intros Hcl. rewrite import_split_map in Hcl.
+      apply andb_prop in Hcl. destruct Hcl as [Hcl Hw]. apply andb_prop in Hcl. destruct Hcl as [Heq Hkeep].
+      apply (proj1 (str_eqb_eq _ _)) in Heq. rewrite !tsigl_map in Heq. rewrite Heq.
+      assert (HsubG : forall b, In b kids -> kind_eqb (bk b) KImportItems = true -> Forall sgood (bkids b)).
+      { intros b Hin _. rewrite Forall_forall in Hgood. apply (good_kids _ _ (Hgood b Hin)). }
+      assert (HsubS : forall b, In b kids -> kind_eqb (bk b) KImportItems = true -> Forall (fun k => sc (bt k) = true) (bkids b)).
+      { intros b Hin Hk. rewrite Forall_forall in Hgood, Hscope. apply Forall_forall. intros k Hink.
+        apply (cg_kid b k (Hgood b Hin) (Hscope b Hin)); [unfold bk in *; apply keq in Hk; rewrite Hk; reflexivity|exact Hink]. }
+      destruct (Forall_split sgood Hgood HsubG) as [Hgp Hgn]. destruct (Forall_split _ Hscope HsubS) as [Hsp Hsn].
+      unfold convert_import. cbv zeta. pose proof import_split_eq as Hsplit. cbv zeta in Hsplit.
+      pose proof (f_equal fst Hsplit) as Hp. pose proof (f_equal snd Hsplit) as Hn. cbn [fst snd] in Hp, Hn. clear Hsplit.
+      set (sp := import_split bk bkids kids) in *.
+      rewrite Hp. 
+      eapply post_bind.
+      - apply flow_like_sig. apply Forall_forall. intros child Hin. rewrite Forall_forall in Hgp, Hsp.
+        pose proof (Hgp child Hin) as Hsg. pose proof (Hsp child Hin) as Hsc.
+        pose proof (all_kept_in _ _ (bt child) Hkeep (in_map bt _ _ Hin)) as Hkp. cbn beta in Hkp.
+        split; [exact Hsc|]. intros Hgen c0. rewrite Hgen in Hkp. cbn [orb] in Hkp. unfold bk in *.
+        destruct (kind_of (bt child)) eqn:Ekc;
+          lazymatch type of Ekc with
+          | _ = KColon => apply post_ret; fsimp; rewrite (sc_quiet _ Hsc) by (rewrite Ekc; reflexivity); exact (good_text [58])
+          | _ = KStar => apply post_ret; fsimp; apply (good_lit_fixed _ _ Hsc); unfold bk; rewrite Ekc; reflexivity
+          | _ = KIdent => apply post_ret; fsimp; apply good_trivia; [exact Hsc|unfold bk; rewrite Ekc; reflexivity]
+          | _ =>
+              destruct (is_expr (bt child)) eqn:Ee;
+              [ eapply post_bind; [apply (sgood_call child (RExpr c0) Hsg Hsc); reflexivity|]; intros d Hd; apply post_ret; fsimp; exact Hd
+              | apply post_ret; fsimp; unfold is_expr in Ee; rewrite Ekc in Ee; cbn in Hkp; unfold is_expr in Hkp; rewrite ?Ekc in Hkp; cbn in Hkp;
+                unfold sig_empty in Hkp; destruct (tsig (bt child)); [reflexivity|discriminate Hkp] ]
+          end.
+      - intros pd [Hpd Wpd].
+        assert (Hnodes : snd sp = [] -> tsigs (snd sp) = []) by (intros ->; reflexivity).
+        destruct (skipn _ kids) as [|i0 ir] eqn:Esk.
+        { cbn [flat_map] in Hn. rewrite <- Hn. rewrite tsigs_nil, app_nil_r. apply post_ret. split; assumption. }
+        rewrite Hn. destruct (snd sp) as [|n0 nr] eqn:Esn.
+        { rewrite tsigs_nil, app_nil_r. apply post_ret. split; assumption. }
+        eapply post_bind.
+        + unfold convert_import_items, import_items_final, import_items_order. rewrite Hreorder. cbn [andb].
+          assert (Hlp : forall nodes', nodes' = n0 :: nr ->
+                    post (l <- lst_process swidth lst_new c nodes'
+                                 (fun (c0 : ctx) (child : bundle) =>
+                                  match bk child with
+                                  | KRenamedImportItem => d <- call child (RImportItemRenamed c0) ;; ret (Some d)
+                                  | KImportItemPath => d <- call child (RImportItemPath c0) ;; ret (Some d)
+                                  | _ => ret None
+                                  end) ;;
+                          ret (lst_doc swidth cfg l (mk_ls [44] [40] [41] false false false false false true true false)))
+                         (good_doc (tsigs (n0 :: nr)))).
+          { intros nodes' ->. eapply post_bind.
+            - eapply post_weaken.
+              + apply (lst_process_sig lst_new c (n0 :: nr) _ (fun b => match bk b with KRenamedImportItem | KImportItemPath => true | _ => false end)).
+                * split; cbn [l_items l_free lst_new]; apply Forall_nil.
+                * cbn [l_peek_hash lst_new].
+                  apply (lwalkb_lwalk (fun c => match kind_of c with KRenamedImportItem | KImportItemPath => true | _ => false end)); [exact Hsn|exact Hw].
+                * intros c0 b Hin Ha. rewrite Forall_forall in Hgn, Hsn. unfold bk in *.
+                  destruct (kind_of (bt b)) eqn:Ekb; try discriminate Ha;
+                    (eapply post_bind; [apply (sgood_call b _ (Hgn b Hin) (Hsn b Hin)); cbn; unfold is_kind; rewrite Ekb; reflexivity|];
+                     intros d Hd; apply post_ret; exists d; auto).
+                * intros c0 b Hin Ha. unfold bk in *. destruct (kind_of (bt b)); try discriminate Ha; apply post_ret; reflexivity.
+              + intros l H. exact H.
+            - intros l (E & W & F). apply post_ret. apply lst_doc_good; [repeat split; reflexivity|exact E|exact W|exact F]. }
+          match goal with |- post (bind (lst_process _ _ _ (if ?b then _ else _) _) _) _ => destruct b end; apply Hlp; reflexivity.
+        + intros d [Hd Wd]. apply post_ret. split.
+          * rewrite !dsig_append, Hpd, Hd. match goal with |- context [if ?b then hardline else space] => destruct b end;
+              [change (dsig hardline) with (@nil N)|change (dsig space) with (@nil N)]; rewrite app_nil_r; reflexivity.
+          * apply wsig_append; [apply wsig_append; [exact Wpd|]|exact Wd]. match goal with |- context [if ?b then hardline else space] => destruct b end; reflexivity.
+    Qed.
+  End Import.
+
   (* ---------- dispatch, step, build ---------- *)
   Lemma tsig_kids t kids : map bt kids = children t -> inner_kind (kind_of t) = true -> sc t = true -> tsig t = tsigs kids.
   Proof.
@@ -2414,6 +2549,7 @@ Section SigConv.
               by (unfold closure_name; cbn [children]; rewrite Hshape; reflexivity);
             exact Hclause
         | E : kind_of t = KForLoop |- _ => inner_case cons_convert_for_loop
+        | E : kind_of t = KModuleImport |- _ => inner_case cons_convert_import
         | E : kind_of t = KArray |- _ => inner_case cons_convert_array
         | E : kind_of t = KDict |- _ => inner_case cons_convert_dict
         | E : kind_of t = KUnary |- _ => inner_case cons_convert_unary
@@ -2563,7 +2699,7 @@ Theorem convert_root_conserves swidth cfg t d n :
 Proof.
   intros Hre Hsc H. unfold convert_root in H. destruct (negb (kind_eqb (kind_of t) KMarkup)) eqn:Ek; [discriminate|].
   unfold run_m, convert_markup_root in H.
-  pose proof (build_sgood swidth cfg (annotate t)) as Hg.
+  pose proof (build_sgood swidth cfg Hre (annotate t)) as Hg.
   assert (Hbt : bt (build swidth cfg (annotate t)) = annotate t) by (destruct (annotate t); reflexivity).
   pose proof (sgood_call _ (RMarkup ctx_default ScDocument) Hg) as Hp. rewrite Hbt in Hp.
   assert (Hfit : fit (RMarkup ctx_default ScDocument) (annotate t) = true).
